@@ -664,3 +664,55 @@ pub fn batch_runner(seed: u64, id: &str, batch: usize) -> TestRunner {
     let cfg = Config { failure_persistence: None, ..Config::default() };
     TestRunner::new_with_rng(cfg, TestRng::from_seed(RngAlgorithm::ChaCha, &worker_seed(seed, batch, id)))
 }
+
+/// A second leg of a property that has already been run by `run_search` (which wrote the
+/// evidence file): failures become replay files / VIOLATION lines exactly as in the first leg
+/// (known findings are honoured), and `coverage[key]` of the evidence file is filled in.
+pub fn append_leg(id: &str, tier: Tier, seed: u64, failures: Vec<BatchFailure>, key: &str, coverage: Value) -> RunResult {
+    let known_file = load_known();
+    let root = verif_root();
+    let mut lines = vec![];
+    let mut exit = 0;
+    let mut seen: Vec<String> = vec![];
+    let mut known_hits: BTreeMap<String, u64> = BTreeMap::new();
+    for f in &failures {
+        if let Some(k) = known_file.findings.iter().find(|k| k.property == id && k.signature == f.sig) {
+            if known_hits.insert(f.sig.clone(), 1).is_none() {
+                lines.push(format!("KNOWN-FINDING: property={} {}", id, k.what));
+            }
+            continue;
+        }
+        if seen.contains(&f.sig) {
+            continue;
+        }
+        seen.push(f.sig.clone());
+        let rf = ReplayFile {
+            property: id.to_string(),
+            signature: f.sig.clone(),
+            message: f.msg.clone(),
+            seed,
+            tier: tier.name().into(),
+            description: f.description.clone(),
+            case: f.case.clone(),
+        };
+        let dir = root.join("replays");
+        let _ = std::fs::create_dir_all(&dir);
+        let path = dir.join(format!("{}-{:016x}.json", id, hash_str(&format!("{}{}", f.sig, rf.case))));
+        std::fs::write(&path, serde_json::to_string_pretty(&rf).unwrap()).expect("write replay");
+        eprintln!("VIOLATION {} sig={} msg={}", id, f.sig, f.msg);
+        lines.push(format!("VIOLATION property={} replay={}", id, path.display()));
+        exit = 1;
+    }
+    let evp = root.join("evidence").join(format!("{id}.json"));
+    if let Some(mut ev) = std::fs::read_to_string(&evp).ok().and_then(|s| serde_json::from_str::<Value>(&s).ok()) {
+        if let Some(c) = ev.get_mut("coverage").and_then(|c| c.as_object_mut()) {
+            c.insert(key.to_string(), coverage);
+        }
+        if exit == 1 {
+            let n = ev.get("violations").and_then(|v| v.as_u64()).unwrap_or(0) + seen.len() as u64;
+            ev["violations"] = json!(n);
+        }
+        let _ = std::fs::write(&evp, serde_json::to_string_pretty(&ev).unwrap());
+    }
+    RunResult { exit, lines }
+}
